@@ -332,6 +332,12 @@ def main(ctx):
         cfg = {"kind": "moments", "dist": name, "boundary": bd, "d": d, "s": s, "rebalancing": True}
         tag = "moments_%s_bd%d_d%d_D%d_s%d" % (name, bd, d, D, s)
         ctx.bounds[tag] = core.bfs(ctx, cfg, D, tag=tag)
+    # graded refinement towards a point (deep, strongly non-uniform weighted trees)
+    for name, bd, tgt in (("uniform", True, [[0.2, 2.2]]), ("triangle_mid", False, [[0.2, 2.2]]), ("normal_inf", False, [[0.7, -0.4]])):
+        D = 4 if q else 6
+        cfg = {"kind": "moments", "dist": name, "boundary": bd, "d": 2, "s": 1, "rebalancing": True, "towards": tgt}
+        tag = "moments_graded_%s_bd%d_D%d" % (name, bd, D)
+        ctx.bounds[tag] = core.bfs(ctx, cfg, D, tag=tag)
     real = [{"config": {"kind": "moments", "dist": name, "boundary": bd, "d": 2, "estimator": "real", "max_evaluations": mx, "rebalancing": True},
              "history": []}
             for (name, bd) in (("uniform", True), ("triangle_mid", True), ("normal_inf", False), ("uniform", False), ("normal_box", True),
